@@ -36,6 +36,13 @@ def to_py(item):
     return tuple(out)
 
 
+# With three or more factors the literal request discipline ("an order of a factor is requested only if the complementary
+# orders of the other factors are present", present = not known absent when the request starts) is judged for the two leading
+# factors.  A later factor meets an intermediate product series, which cannot know that an element is absent before it is
+# evaluated; requests of later factors are judged by the highest-order contract only (DESIGN.md 10.3).
+LITERAL_LEADING = True
+
+
 class Prop:
     id = "C18"
     level = "exploration"
@@ -50,13 +57,14 @@ class Prop:
             "evaluation.  non-trivial = at least 3 value-returning requests with at least one non-zero, non-sentinel "
             "result that needed >= 2 terms; distinct = distinct sha256 of the event log")
     probes = ["k2", "k3", "k4", "herm_adjpair", "herm_sandwich", "herm_nonadjoint", "domain_float", "domain_tracer",
-              "result_one", "result_zero", "result_value", "multi_term_result", "discipline_checked", "highest_order_checked", "highest_order_truth_checked",
+              "result_one", "result_zero", "result_value", "multi_term_result", "discipline_checked", "discipline_checked_3plus", "highest_order_checked", "highest_order_truth_checked",
               "op_array", "op_view", "repeat_cached", "op_mul", "op_rmul", "known0_pattern", "view_factor", "twin_product", "same_object_factors", "late_eval_factor", "tiny_scale", "dynamic_discipline_checked", "factor_chain_dep", "family_R", "recurrent_W1", "recurrent_W2", "recurrent_W3", "recurrent_compared", "known_finding_signature_hits"]
     components_real = ["pymablock.series.cauchy_dot_product, product_by_order, BlockSeries"]
     components_stub = ["factor series eval callbacks (simulator-owned tables, call log)", "element multiplication wrapper (logging)",
                        "tracer element type (exact free *-algebra)"]
-    assumptions = ["discipline rule: literal for 2 factors; for 3+ factors only the documented contract (full order n of a factor "
-                   "is requested only if every other factor has a not-known-absent zeroth-order element on some chain)",
+    assumptions = ["discipline rule: literal (present = not known absent when the request starts) for two-factor products and for the two "
+                   "leading factors of longer products; for later factors, which meet an intermediate product series, only the documented "
+                   "contract (full order n of a factor is requested only if every other factor has a not-known-absent zeroth-order element on some chain)",
                    "bounds: <= 4 factors, <= 3 blocks per dimension, per-axis orders <= 4/2/1 for 1/2/3 parameters"]
 
     # ------------------------------------------------------------------ recurrent definitions (family R)
@@ -455,10 +463,21 @@ class Prop:
 
     # ------------------------------------------------------------------ execution
     def execute(self, case):
-        from pymablock.series import PENDING, BlockSeries, cauchy_dot_product, one, zero
+        from simkit.values import TracerOverflow
 
         if case.get("family") == "R":
             return self.execute_R(case)
+        T.work, T.budget = 0, 3000000  # per run: the outcome of a run never depends on what the worker executed before
+        try:
+            return self._execute_main(case)
+        except TracerOverflow:
+            return {"violation": None, "digest": batch.digest_of([("tracer-budget-exceeded",)]), "events": 0,
+                    "nontrivial": False, "counters": {"tracer_budget_exceeded": 1}, "states": []}
+
+    def _execute_main(self, case):
+        from pymablock.series import PENDING, BlockSeries, cauchy_dot_product, one, zero
+        from simkit.values import TracerOverflow
+
         K, ninf, dims, herm = case["K"], case["ninf"], case["dims"], case["herm"]
         self._case = case
         tables = self._tables(case, zero, one)
@@ -678,6 +697,8 @@ class Prop:
                 try:
                     views[label] = (P[i, j], i, j)
                     bump("op_view")
+                except TracerOverflow:
+                    raise
                 except Exception as e:
                     fail("view-creation", f"op#{opi} {op}: {type(e).__name__}: {e}")
                 continue
@@ -720,6 +741,8 @@ class Prop:
             cur["cells"] = must if target is P else None
             try:
                 res = target[item]
+            except TracerOverflow:
+                raise
             except Exception as e:
                 fail("unexpected-raise", f"op#{opi} {op}: {type(e).__name__}: {e}")
                 break
@@ -756,10 +779,12 @@ class Prop:
                              {"factor": k, "idx": list(idx)})
                         break
             for (k, idx) in new:
-                if K == 2:
+                if K == 2 or (LITERAL_LEADING and k < 2):
                     bump("discipline_checked")
+                    if K > 2:
+                        bump("discipline_checked_3plus")
                     if (k, idx) not in allow:
-                        fail("discipline", f"op#{opi} {op}: factor {NAMES[k]} evaluated at {idx} although the complementary element of the other factor was known absent",
+                        fail("discipline", f"op#{opi} {op}: factor {NAMES[k]} evaluated at {idx} although on every block chain and splitting some complementary element of the other factors was known absent",
                              {"factor": k, "idx": list(idx)})
                         break
                 elif sum(idx[2:]) > 0 and tuple(idx[2:]) in req_orders and not any(
@@ -816,6 +841,8 @@ class Prop:
                         fail("value-mismatch-second-product", f"a second product over the same factor objects with another operator: element {(i, j, *n)} = {self._show(got)}, reference Cauchy sum = {self._show(want)}",
                              {"i": i, "j": j, "n": list(n)})
                         break
+            except TracerOverflow:
+                raise
             except Exception as e:
                 fail("unexpected-raise", f"second product over the same factors: {type(e).__name__}: {e}")
             base = saved_base
